@@ -35,6 +35,7 @@ CONSTANTS
   Genesis,      \* genesis BP list (sequence of candidate ids)
   Rankings,     \* sequence of candidate rankings (each a sequence of distinct candidate ids, best first)
   Counts,       \* possible values of the stored BPCOUNT parameter
+  ContentSet,   \* the block contents [rank, count] that occur (a subset of [rank : DOMAIN Rankings, count : Counts])
   DefaultCount, \* BPCOUNT when nothing is stored (= number of genesis BPs)
   MaxChanges,   \* bound on the number of heights of one chain whose content differs from the parent's
   MaxLibLag,    \* the LIB is advanced only to heights >= tip - MaxLibLag (keeps the model small; 0..MaxH = any)
@@ -60,7 +61,8 @@ view == <<chain, db, reorg, snaps, cluster, cur, lib, nre, nrs>>
 Bump(n, max) == IF max >= 99 THEN 0 ELSE n + 1
 
 Tip == Len(chain)
-Contents == [rank : DOMAIN Rankings, count : Counts]
+Contents == ContentSet
+AllContents == [rank : DOMAIN Rankings, count : Counts]
 GenesisContent == [rank |-> 1, count |-> DefaultCount]
 ContentAt(c, h) == IF h = 0 THEN GenesisContent ELSE c[h]
 
@@ -192,6 +194,7 @@ Spec == Init /\ [][Next]_vars
 Lists == UNION {[1..k -> UNION {Range(Rankings[i]) : i \in DOMAIN Rankings} \cup Range(Genesis)] : k \in 0..8}
 
 TypeOK ==
+  /\ ContentSet \subseteq AllContents
   /\ chain \in Seq(Contents) /\ Len(chain) <= MaxH
   /\ db \in Seq(Contents)
   /\ reorg \in BOOLEAN
